@@ -44,7 +44,7 @@ Fixpoint tree_of (t : ty) (v : val) {struct t} : item :=
   | TArr e, VL xs => ICont false (pw (N.of_nat (length xs))) (map (tree_of e) xs)
   | TIdx, VL xs => ICont false (pw (N.of_nat (length xs)))
                      (map (fun x => match x with VN n => uint_item n | _ => ISeven W0 0 end) xs)
-  | TMap sk fs, VR vs => ICont true (pw (count_present fs vs)) (tree_fields fs vs)
+  | TMap sk _ fs, VR vs => ICont true (pw (count_present fs vs)) (tree_fields fs vs)
   | _, _ => ISeven W0 0
   end
 with tree_fields (fs : fields) (vs : list (option val)) {struct fs} : list item :=
@@ -122,7 +122,7 @@ Proof.
     unfold spec_array_start. rewrite (spec_head_pw MA). f_equal.
     induction H as [|x xs Hx _ IHl]; [reflexivity|]. cbn [flat_map map]. rewrite flat_map_app. f_equal; [|exact IHl].
     destruct x; try contradiction. cbn [flat_map spec_enc]. rewrite app_nil_r. apply spec_uint_item.
-  - intros sk fs IH [n|z|b|bs|xs|vs] H; try contradiction. cbn [has_ty] in H.
+  - intros sk accs fs IH [n|z|b|bs|xs|vs] H; try contradiction. cbn [has_ty] in H.
     cbn [write_val flat_map tree_of spec_enc ser mcont]. unfold cnt.
     rewrite tree_fields_length. replace (2 * count_present fs vs / 2) with (count_present fs vs)
       by (rewrite N.mul_comm, N.div_mul; lia).
@@ -145,7 +145,7 @@ Fixpoint nodupb (l : list Z) : bool :=
 Fixpoint desc_ok (t : ty) : bool :=
   match t with
   | TArr e => desc_ok e
-  | TMap sk fs => nodupb (fkeys fs) && (N.of_nat (flen fs) <? 1000) && fields_ok fs
+  | TMap sk _ fs => nodupb (fkeys fs) && (N.of_nat (flen fs) <? 1000) && fields_ok fs
   | _ => true
   end
 with fields_ok (fs : fields) : bool :=
@@ -176,8 +176,8 @@ Qed.
 
 Record entry := mkEntry { e_kx : item; e_vx : item; e_key : Z; e_upd : option (nat * val) }.
 Definition ser_entry (e : entry) : list N := ser (e_kx e) ++ ser (e_vx e).
-Definition apply_e (rec : list (option val)) (e : entry) : list (option val) :=
-  match e_upd e with Some (i, v) => set_nth i (Some v) rec | None => rec end.
+Definition apply_e (accs : list bool) (rec : list (option val)) (e : entry) : list (option val) :=
+  match e_upd e with Some (i, v) => set_nth i (Some (upd_slot accs i (nth i rec None) v)) rec | None => rec end.
 Definition entry_ok (rdk : Z -> option (nat * prog val)) (sk : prog unit) (e : entry) : Prop :=
   (forall rest, run read_integer (ser (e_kx e) ++ rest) = (inl (e_key e), rest)) /\
   match rdk (e_key e), e_upd e with
@@ -186,9 +186,9 @@ Definition entry_ok (rdk : Z -> option (nat * prog val)) (sk : prog unit) (e : e
   | _, _ => False
   end.
 
-Lemma map_loop_def rdk sk : forall es g rec rest, Forall (entry_ok rdk sk) es -> (length es <= g)%nat ->
-  run (map_loop rdk sk g (N.of_nat (length es)) false rec) (flat_map ser_entry es ++ rest)
-  = (inl (fold_left apply_e es rec), rest).
+Lemma map_loop_def accs rdk sk : forall es g rec rest, Forall (entry_ok rdk sk) es -> (length es <= g)%nat ->
+  run (map_loop accs rdk sk g (N.of_nat (length es)) false rec) (flat_map ser_entry es ++ rest)
+  = (inl (fold_left (apply_e accs) es rec), rest).
 Proof.
   induction es as [|e es IH]; intros g rec rest HF Hg; inversion HF as [|? ? He HF']; subst.
   - destruct g; reflexivity.
@@ -267,19 +267,27 @@ Qed.
 Lemma set_nth_app {A} (pre : list A) x y post : set_nth (length pre) x (pre ++ y :: post) = pre ++ x :: post.
 Proof. induction pre as [|a pre IH]; cbn; [reflexivity|]. rewrite IH. reflexivity. Qed.
 
-Lemma entries_fold sk fs : forall vs pre, fields_ty sk fs vs ->
-  fold_left apply_e (entries_of (length pre) fs vs) (pre ++ init_rec fs) = pre ++ vs.
+(* a member read for the first time: its slot still holds the reset() value, and appending to that is replacing it *)
+Lemma merge_val_init v : merge_val None v = v /\ merge_val (Some (VL [])) v = v.
+Proof. split; [reflexivity|]. destruct v; reflexivity. Qed.
+Lemma upd_slot_init accs i (p : presence) v : upd_slot accs i (match p with NonEmpty => Some (VL []) | _ => None end) v = v.
+Proof. unfold upd_slot. destruct (nth i accs false); [|reflexivity]. destruct p; apply merge_val_init. Qed.
+Lemma nth_middle_opt {A} (pre : list A) y post d : nth (length pre) (pre ++ y :: post) d = y.
+Proof. induction pre as [|a pre IH]; [reflexivity|exact IH]. Qed.
+
+Lemma entries_fold accs sk fs : forall vs pre, fields_ty sk fs vs ->
+  fold_left (apply_e accs) (entries_of (length pre) fs vs) (pre ++ init_rec fs) = pre ++ vs.
 Proof.
   induction fs as [|k p t r IH]; intros vs pre H.
   - destruct vs; [reflexivity|contradiction].
   - destruct vs as [|v vs]; [contradiction|]. cbn [fields_ty] in H. destruct H as (_ & Hv & Hr).
     cbn [entries_of init_rec]. rewrite fold_left_app.
-    assert (Hstep : fold_left apply_e
+    assert (Hstep : fold_left (apply_e accs)
               (match v with Some x => if present p v then [mkEntry (key_item k) (tree_of t x) k (Some (length pre, x))] else [] | None => [] end)
               (pre ++ (match p with NonEmpty => Some (VL []) | _ => None end) :: init_rec r) = (pre ++ [v]) ++ init_rec r).
     { destruct v as [x|].
       - destruct (present p (Some x)) eqn:Hp.
-        + cbn [fold_left]. unfold apply_e. cbn [e_upd]. rewrite set_nth_app, <- app_assoc. reflexivity.
+        + cbn [fold_left]. unfold apply_e. cbn [e_upd]. rewrite nth_middle_opt, upd_slot_init, set_nth_app, <- app_assoc. reflexivity.
         + cbn [fold_left]. unfold present in Hp. destruct p; try discriminate.
           destruct x as [| | | |xs|]; try discriminate. destruct xs; try discriminate. rewrite <- app_assoc. reflexivity.
       - cbn [fold_left]. destruct p; try contradiction. rewrite <- app_assoc. reflexivity. }
@@ -383,7 +391,7 @@ Proof.
       destruct x as [n| | | | |]; try contradiction. unfold f. rewrite run_bind, read_uint_item by (unfold two64; cbn in H; lia).
       cbn [run]. rewrite N.mod_small by exact H. reflexivity.
     + pose proof (length_le_flat (map f xs)). lia.
-  - (* TMap *) intros sk fs IH [n|z|b|bs|xs|vs] Hd H g rest Hg; try contradiction. cbn [has_ty] in H.
+  - (* TMap *) intros sk accs fs IH [n|z|b|bs|xs|vs] Hd H g rest Hg; try contradiction. cbn [has_ty] in H.
     cbn [desc_ok] in Hd. apply andb_true_iff in Hd. destruct Hd as [Hd Hfo]. apply andb_true_iff in Hd. destruct Hd as [Hnd Hfl].
     cbn [tree_of read_val ser mcont] in *. unfold cnt in *. rewrite tree_fields_length in *.
     replace (2 * count_present fs vs / 2) with (count_present fs vs) in * by (rewrite N.mul_comm, N.div_mul; lia).
@@ -394,7 +402,7 @@ Proof.
     rewrite run_bind, <- (entries_length fs vs 0), <- (entries_ser fs vs 0).
     rewrite map_loop_def.
     + change 0%nat with (@length (option val) []). change (init_rec fs) with ([] ++ init_rec fs).
-      rewrite (entries_fold sk) by auto. cbn [app].
+      rewrite (entries_fold accs sk) by auto. cbn [app].
       destruct (mand_ok_ty sk fs vs H) as [-> ->]. reflexivity.
     + apply (IH sk vs Hfo H g _ 0%nat).
       * apply find_field_lookup; auto. apply nodupb_NoDup; auto.
@@ -450,7 +458,7 @@ Proof.
     cbn [tree_of wf]. unfold cnt. rewrite map_length. split; [apply pw_fits; auto|]. split; [discriminate|].
     apply wfl_map. eapply Forall_impl; [|exact H]. intros x Hx. destruct x; try contradiction.
     unfold uint_item. cbn [wf]. apply pw_fits. unfold two64. cbn in Hx. lia.
-  - intros sk fs IH [n|z|b|bs|xs|vs] Hd H; try contradiction. cbn [has_ty] in H.
+  - intros sk accs fs IH [n|z|b|bs|xs|vs] Hd H; try contradiction. cbn [has_ty] in H.
     cbn [desc_ok] in Hd. apply andb_true_iff in Hd. destruct Hd as [Hd Hfo]. apply andb_true_iff in Hd. destruct Hd as [Hnd Hfl].
     destruct (IH sk vs Hfo H) as [Hw He].
     cbn [tree_of wf]. unfold cnt. rewrite tree_fields_length.
@@ -491,7 +499,7 @@ Proof.
   - intros [n|z|b|bs|xs|fs] _ H; try contradiction. cbn [has_ty] in H. destruct H as [Hlen H]. apply all_Forall in H.
     cbn [write_val]. constructor; [exact Hlen|]. clear Hlen. induction H as [|x xs Hx _ IHl]; cbn [flat_map]; [constructor|].
     apply Forall_app. split; auto. destruct x; try contradiction. constructor; [|constructor]. cbn in *. lia.
-  - intros sk fs IH [n|z|b|bs|xs|vs] Hd H; try contradiction. cbn [has_ty] in H.
+  - intros sk accs fs IH [n|z|b|bs|xs|vs] Hd H; try contradiction. cbn [has_ty] in H.
     cbn [desc_ok] in Hd. apply andb_true_iff in Hd. destruct Hd as [Hd Hfo]. apply andb_true_iff in Hd. destruct Hd as [Hnd Hfl].
     cbn [write_val]. pose proof (count_le_flen fs vs). constructor; [cbn; unfold two64; lia|]. apply IH; auto.
   - intros sk vs _ H. destruct vs; constructor.
@@ -569,13 +577,13 @@ Proof.
     + apply rbounded_bind; [apply rb_read_break|]. intros; constructor.
   - apply rbounded_bind; [exact Hr|]. intros v. apply IH.
 Qed.
-Lemma rb_map_loop rdk sk : (forall key i rd, rdk key = Some (i, rd) -> rbounded rd) -> rbounded sk ->
-  forall g n indef rec, rbounded (map_loop rdk sk g n indef rec).
+Lemma rb_map_loop accs rdk sk : (forall key i rd, rdk key = Some (i, rd) -> rbounded rd) -> rbounded sk ->
+  forall g n indef rec, rbounded (map_loop accs rdk sk g n indef rec).
 Proof.
   intros Hk Hs. induction g as [|g IH]; intros n indef rec; cbn [map_loop]; destruct ((n =? 0) && negb indef); try constructor.
   assert (Hbody : rbounded (key <- read_integer ;; match rdk key with
-                     | Some (i, rd) => v <- rd ;; map_loop rdk sk g (n - 1) indef (set_nth i (Some v) rec)
-                     | None => sk ;;; map_loop rdk sk g (n - 1) indef rec end)).
+                     | Some (i, rd) => v <- rd ;; map_loop accs rdk sk g (n - 1) indef (set_nth i (Some (upd_slot accs i (nth i rec None) v)) rec)
+                     | None => sk ;;; map_loop accs rdk sk g (n - 1) indef rec end)).
   { apply rbounded_bind; [apply rb_read_integer|]. intros key. destruct (rdk key) as [[i rd]|] eqn:E.
     - apply rbounded_bind; [eapply Hk; eauto|]. intros v. apply IH.
     - apply rbounded_bind; [exact Hs|]. intros _. apply IH. }
@@ -598,7 +606,7 @@ Proof.
     apply rbounded_bind; [apply rb_arr_loop; exact IH|]. intros; constructor.
   - cbn [read_val]. unfold read_idx. apply rbounded_bind; [apply rb_read_xstart|]. intros st. constructor; [apply reserve_req_le|].
     apply rbounded_bind; [apply rb_arr_loop|intros; constructor]. apply rbounded_bind; [apply rb_read_unsigned|]. intros; constructor.
-  - intros sk fs IH. cbn [read_val]. apply rbounded_bind; [apply rb_read_xstart|]. intros st.
+  - intros sk accs fs IH. cbn [read_val]. apply rbounded_bind; [apply rb_read_xstart|]. intros st.
     apply rbounded_bind.
     + apply rb_map_loop; [|apply rb_skip]. intros key i rd H. eapply IH. exact H.
     + intros rec. destruct (mand_ok fs rec); constructor.
